@@ -1,0 +1,12 @@
+//go:build !verif
+// +build !verif
+
+package bidengine
+
+import "time"
+
+// vt is a verification trace point; it does nothing without the verif build tag.
+func (o *order) vt(event string, kv ...interface{}) {}
+
+// vtTimer is a verification scheduling point; it returns its argument without the verif build tag.
+func (o *order) vtTimer(ch <-chan time.Time) <-chan time.Time { return ch }
